@@ -29,6 +29,13 @@ CHECKS = [
            "(orders 0..12, long single-lag series, NaN parameters) are validated in exact integer arithmetic by ARModelTrace.tla.",
       note="dyadic lattice (all intermediate values exact in float64); 1-D series only",
       technique=TLA),
+ dict(property_id="C03", category="model_checking", design_ref="3.10",
+      text="Crps.tla models the Hersbach accumulation of c_crps in exact rationals and TLC checks it against the ensemble definition, the "
+           "decomposition identity, non-negativity and uncertainty = climatology CRPS for every observation/member vector of the config sizes; "
+           "every state is replayed through metrics.crps plainly and under exact metamorphic variants; random integer-valued calls are validated "
+           "by CrpsTrace.tla.",
+      note="integer-valued data (ties everywhere), 2^k scalings; finite values only",
+      technique=TLA),
 ]
 
 _PENDING = "check not built yet in this round; see DESIGN.md section 3 for the planned specification"
